@@ -250,4 +250,39 @@ example : (match run (Terminal.init [true, false]) historyEx with
             [.started .voice, .voiceEnded (.flc [7]) []],
             [.unknown, .a, .b, .unknown], [1, 1, 2, 2, 3, 4], [2, 3, 3, 4, 3, 5]) := by decide
 
+/-! ## ambient conditions: a dead standard output -/
+
+/-- whatever the state of `sys.stdout`, `end_data_transmission` never fails and does exactly what the
+ambient-free model `endData` does (the diagnostic `print` is inside the `try` of the decode): the events,
+the reset to idle and the new stream id do not depend on whether the standard output can be written -/
+theorem ambient_stdout_irrelevant (stdoutDead : Bool) (m : M) :
+    endDataAmb true stdoutDead m = .ok (endData m) := by
+  unfold endDataAmb endData
+  by_cases h1 : (m.tx.finished || m.tx.type != .data) = true
+  · simp [h1]
+  · simp only [h1]
+    cases hh : m.tx.header with
+    | none => simp
+    | some h =>
+      have : ∀ d : Diag, d.escapes true = false := by intro d; cases d <;> rfl
+      simp [this]
+
+/-- a datagram that decodes (both ports in the table, 5 octets) on a transmission with SAP 3 -/
+def mDiagEx : M :=
+  { tx := { type := .data, header := some (.data { btf := some 1, a := false, sap := 3, raw := [] }),
+            blocks := [.rate .r12 .unconfirmed (bytesToBits [0x12, 0x34, 0x00, 0x01, 0x01, 0, 0, 0, 0, 0, 0, 0])],
+            streamNo := 5 },
+    oracle := 6 }
+
+example : diagOutcome true (.data { btf := some 1, a := false, sap := 3, raw := [] }) mDiagEx.tx.blocks = .printFailed := by
+  decide +kernel
+
+/-- with the `print` behind the `try` (the "minimal try body" refactoring) a dead standard output makes
+`end_data_transmission` raise after the `ended` notification and before the reset: the property fails -/
+example : (match endDataAmb false true mDiagEx with | .error .value => true | _ => false) = true := by decide +kernel
+
+/-- … while the code as it is completes, idle with a new stream id -/
+example : (match endDataAmb true true mDiagEx with
+    | .ok m => m.tx.isIdleFresh && m.tx.streamNo == 6 | .error _ => false) = true := by decide +kernel
+
 end Dmr.C08
